@@ -160,6 +160,16 @@ func ParseQuery(q string) (stmts []Stmt, perr bool, ok bool) {
 	return stmts, false, true
 }
 
+// ExpandTag turns "@300" into a tag of 300 bytes (any other tag is itself).
+func ExpandTag(tag string) string {
+	if strings.HasPrefix(tag, "@") {
+		if n, err := strconv.Atoi(tag[1:]); err == nil {
+			return strings.Repeat("t", n)
+		}
+	}
+	return tag
+}
+
 // ReturnErr, returned as the op error by an Extra hook, makes the statement
 // function return Err immediately (instead of recording it and continuing).
 type ReturnErr struct{ Err error }
@@ -251,13 +261,7 @@ func (r *Rec) statement(i int, st Stmt, query string) *wire.PreparedStatement {
 			case op == "e":
 				opErr = w.Empty()
 			case strings.HasPrefix(op, "c="):
-				tag := op[2:]
-				if strings.HasPrefix(tag, "@") { // "@300" = a tag of 300 bytes
-					if n, err := strconv.Atoi(tag[1:]); err == nil {
-						tag = strings.Repeat("t", n)
-					}
-				}
-				opErr = w.Complete(tag)
+				opErr = w.Complete(ExpandTag(op[2:]))
 			case op == "w":
 				e.Written = w.Written()
 			case op == "p":
